@@ -424,3 +424,63 @@ func (s *space) histories(c *mc.Ctx) {
 		c.Require(fmt.Sprintf("hist/%s/depth=%d", k, depth+c.Pick(0, 1)), 50)
 	}
 }
+
+// reuse: ONE ExpandedEdwardsPoint / ExpandedRistrettoPoint / EdwardsBasepointTable is used for the whole core scalar
+// alphabet in a row (single goroutine); every result is compared and the object must be bit-identical after
+// every call.  The scalars a include lattice-reduced d0 of both signs for the triple-base routine.
+func (s *space) reuse(c *mc.Ctx) {
+	names := []string{"[g0]B", "B+T1", "U0", "O", "T4", "[g0]B+T6", "2U0"}
+	c.Par("reuse", len(names), func(w *mc.W, i int) {
+		e := s.elemByName(names[i])
+		p := s.pts[e*ptalph.NumReps+(i+1)%ptalph.NumReps]
+		el := s.elems[e]
+		cas := map[string]string{"point": el.Name + "/" + ptalph.RepName[p.rep]}
+		var x *curve.ExpandedEdwardsPoint
+		var rx *curve.ExpandedRistrettoPoint
+		var tb *curve.EdwardsBasepointTable
+		if !try(w, "precomputation", cas, func() {
+			x, tb = curve.NewExpandedEdwardsPoint(p.P), curve.NewEdwardsBasepointTable(p.P)
+			if el.In2E() {
+				rx = curve.NewExpandedRistrettoPoint(rp(p.P))
+			}
+		}) {
+			return
+		}
+		for k, ai := range s.core {
+			bi := s.core[(k+1)%len(s.core)]
+			a, b := s.scs[ai], s.scs[bi]
+			aP, bB := s.refMul(e, ai), s.refMul(s.baseIdx, bi)
+			d := func(op string) func() string {
+				return func() string {
+					return fmt.Sprintf("%s, use %d of one object for %s (a=0x%x, b=0x%x)", op, k+1, cas["point"], s.full[ai], s.full[bi])
+				}
+			}
+			in := []interface{}{a, b, x, tb}
+			if rx != nil {
+				in = append(in, rx)
+			}
+			unchanged(w, "reuse", d("precomputed object"), cas, in, func() {
+				checkPt(w, "EdwardsPoint.ExpandedDoubleScalarMulBasepointVartime/reuse", func() *curve.EdwardsPoint { return nr().ExpandedDoubleScalarMulBasepointVartime(a, x, b) }, refgrp.Sum(aP, bB), d("ExpandedDoubleScalarMulBasepointVartime"), cas)
+				checkPt(w, "EdwardsPoint.ExpandedMultiscalarMulVartime/reuse", func() *curve.EdwardsPoint {
+					return nr().ExpandedMultiscalarMulVartime([]*scalar.Scalar{a, b}, []*curve.ExpandedEdwardsPoint{x, x}, nil, nil)
+				}, refgrp.Sum(aP, s.refMul(e, bi)), d("ExpandedMultiscalarMulVartime(static = {x, x})"), cas)
+				checkPt(w, "EdwardsPoint.MulBasepoint/reuse", func() *curve.EdwardsPoint { return nr().MulBasepoint(tb, a) }, aP, d("MulBasepoint"), cas)
+				C := ptalph.Rep(c.Seed, refgrp.Sum(aP, bB), k%ptalph.NumReps)
+				try(w, "EdwardsPoint.ExpandedTripleScalarMulBasepointVartime/reuse", cas, func() {
+					if !nr().ExpandedTripleScalarMulBasepointVartime(a, x, b, C).IsSmallOrder() {
+						w.Fail("EdwardsPoint.ExpandedTripleScalarMulBasepointVartime/reuse", d("ExpandedTripleScalarMulBasepointVartime with aP+bB-C = O: result not in E[8]")(), cas)
+					}
+				})
+				if rx != nil {
+					checkR(w, "RistrettoPoint.ExpandedDoubleScalarMulBasepointVartime/reuse", func() *curve.RistrettoPoint { return nrr().ExpandedDoubleScalarMulBasepointVartime(a, rx, b) }, refgrp.Sum(aP, bB), d("ristretto ExpandedDoubleScalarMulBasepointVartime"), cas)
+					try(w, "RistrettoPoint.ExpandedTripleScalarMulBasepointVartime/reuse", cas, func() {
+						if !nrr().ExpandedTripleScalarMulBasepointVartime(a, rx, b, rp(C)).IsIdentity() {
+							w.Fail("RistrettoPoint.ExpandedTripleScalarMulBasepointVartime/reuse", d("ristretto ExpandedTripleScalarMulBasepointVartime with aP+bB-C = O: result is not the identity")(), cas)
+						}
+					})
+				}
+			})
+			w.Eval("reuse/"+el.Name, true)
+		}
+	})
+}
